@@ -63,6 +63,11 @@ func oracleC07(l *harness.Live) (c07Info, *harness.Failure) {
 	if want.Kind != "bool" {
 		return info, harness.Failf("bool", want.Kind, "C07 expressions are boolean-valued")
 	}
+	if sc, _ := l.Params["short_circuit"].(bool); !sc {
+		if f := sweepContexts(l); f != nil {
+			return info, f
+		}
+	}
 	// the same expression used as a predicate selects accordingly
 	if sc, _ := l.Params["short_circuit"].(bool); !sc {
 		pe := &xast.Path{Abs: true, Steps: []interface{}{xast.DSlash{}, &xast.Step{Axis: "child", Test: xast.NodeTest{Kind: "wild"}, Abbr: true, Preds: []xast.Expr{l.AST}}}}
